@@ -1463,14 +1463,34 @@ func (sc *SCtx) seen(x *ECall) (Val, error) {
 	}
 	l := g.cfg.LoopSeq[ord]
 	var rng *ssa.Range
-	for b := range l.Blocks {
-		for _, in := range b.Instrs {
-			if nx, ok := in.(*ssa.Next); ok {
-				if r, ok := nx.Iter.(*ssa.Range); ok {
-					if rng != nil && rng != r {
-						continue
+	// the iterator advanced in the loop's own header (a nested loop has its own)
+	for _, in := range l.Header.Instrs {
+		if nx, ok := in.(*ssa.Next); ok {
+			if r, ok := nx.Iter.(*ssa.Range); ok {
+				rng = r
+			}
+		}
+	}
+	if rng == nil {
+		// otherwise the iterator advanced in a block of this loop that belongs to no
+		// inner loop
+		inner := map[*ssa.BasicBlock]bool{}
+		for _, l2 := range g.cfg.LoopSeq {
+			if l2 != l && l.Blocks[l2.Header] {
+				for b := range l2.Blocks {
+					inner[b] = true
+				}
+			}
+		}
+		for _, b := range g.Fn.Blocks {
+			if !l.Blocks[b] || inner[b] {
+				continue
+			}
+			for _, in := range b.Instrs {
+				if nx, ok := in.(*ssa.Next); ok {
+					if r, ok := nx.Iter.(*ssa.Range); ok && rng == nil {
+						rng = r
 					}
-					rng = r
 				}
 			}
 		}
